@@ -54,7 +54,8 @@ def main(argv=None):
         if args.replay:
             return replay_mod.replay_file(args.replay, args.repo)
 
-        targets = sorted(t for t, c in REGISTRY.items() if prop in c.props)
+        targets = sorted(t for t, c in REGISTRY.items() if prop in c.props and not c.assumed)
+        assumed_contracts = sorted(f"{t}: {c.assumed}" for t, c in REGISTRY.items() if prop in c.props and c.assumed)
         z3_ms = 10000 if args.tier == "quick" else 40000
         budget = 300.0 if args.tier == "quick" else 1200.0
         jobs = [(args.repo, t, z3_ms, budget) for t in targets]
@@ -78,6 +79,7 @@ def main(argv=None):
                 pool.terminate()
                 pool.join()
         sres = structural.run(prop, args.repo, args.tier)
+        sres.setdefault("trusted", []).extend(f"ASSUMED CONTRACT (function not verified) {a}" for a in assumed_contracts)
         rc = report(prop, args, targets, results, sres, seed, t0)
         return rc
     except SystemExit:
